@@ -483,8 +483,8 @@ def check_C08(tier, seed):
     jobs_stage(v, sd, binary, "C08_deep", ds=["a", "b", "s", "t"], ent=["e1", "e2", "e3"], contents=jc,
                writable=["a", "b"], max_batch=2,
                jobs=[job("j1", ["a"], "s", batch=2), job("j2", ["a", "b"], "t", batch=1), job("j3", ["b"], "s", batch=3, lo=True)],
-               faults=JOB_FAULTS, types=types, max_steps=9 if thorough else 7, sample=True, seed=seed,
-               fan=5 if thorough else 4, target=30000 if thorough else 4000)
+               faults=JOB_FAULTS, types=types, max_steps=8 if thorough else 6, sample=True, seed=seed,
+               fan=4 if thorough else 3, target=30000 if thorough else 4000)
     v.assumptions = ["a run is executed synchronously through job.Run() with a recording / fault-injecting sink around "
                      "the configured DatasetSink (overlay code, no product change)",
                      "'after n' models the crash window between sink write and token store without killing the process; "
@@ -1055,3 +1055,140 @@ def check_C15(tier, seed):
                     "recover, (2) POSTed through the real handler into a fresh dataset, (3) read back through GET entities / "
                     "changes and re-parsed, (4) cut at ~40 byte positions. evaluations = compared answers; "
                     "distinct_nontrivial = distinct documents")
+
+
+# ----------------------------------------------------------------------------
+# C11
+
+def check_C11(tier, seed):
+    v = Verdict("C11", tier, seed)
+    v.wd = verif.workdir("C11")
+    sd = verif.spec_copy(v.wd)
+    binary = verif.build_harness(v.wd)
+    thorough = tier == "thorough"
+    # (0) the slot rules themselves (safety + every run ends, under fairness)
+    name = "C11_raffle"
+    with open(os.path.join(sd, name + ".tla"), "w") as fh:
+        fh.write("---- MODULE %s ----\nEXTENDS Raffle\n====\n" % name)
+    with open(os.path.join(sd, name + ".cfg"), "w") as fh:
+        fh.write('SPECIFICATION Spec\nCONSTANTS Jobs = {"j1","j2","j3"} PoolI = 2 PoolF = 1 MaxReq = %d\n'
+                 'INVARIANTS NoOverlap PoolBound Conservation ResultPerRun\nPROPERTY EveryRunEnds\nCHECK_DEADLOCK FALSE\n'
+                 % (7 if thorough else 5))
+    st = verif.run_tlc(sd, name, os.path.join(v.wd, name + ".out"), timeout=900)
+    v.add_tlc(st)
+    # (a) the configuration box
+    name = "C11_configs"
+    srcs = ["DatasetSource", "DatasetSourceLatest", "UnionDatasetSource", "MultiSource", "SampleSource", "SlowSource",
+            "HttpDatasetSource", "Bogus"]
+    trs = ["none", "js1", "js3", "http", "Bogus"]
+    snks = ["DatasetSink", "DevNullSink", "ConsoleSink", "HttpDatasetSink", "Bogus"]
+    trigs = ["cron", "cron_bad", "onchange", "onchange_nods", "bogus"]
+    jts = ["incremental", "fullsync", "bogus"]
+    hds = ["none", "log", "logmax", "rerun", "log+rerun", "requeue", "duplicate", "bogus"]
+    with open(os.path.join(sd, name + ".tla"), "w") as fh:
+        fh.write("---- MODULE %s ----\nEXTENDS JobConfigs\n====\n" % name)
+    with open(os.path.join(sd, name + ".cfg"), "w") as fh:
+        fh.write("SPECIFICATION Spec\nCONSTANTS Sources = %s Transforms = %s Sinks = %s Triggers = %s JobTypes = %s Handlers = %s\n"
+                 "CONSTRAINT EmitCfg\nCHECK_DEADLOCK FALSE\n" % tuple(
+                     "{" + ", ".join('"%s"' % x for x in l) + "}" for l in (srcs, trs, snks, trigs, jts, hds)))
+    out = os.path.join(v.wd, name + ".out")
+    st = verif.run_tlc(sd, name, out, workers=4)
+    v.add_tlc(st)
+    tot, results = verif.replay(binary, v.wd, out, label=name, test="TestJobConfigs", stride_extra=1 if thorough else 4,
+                                seed=seed, timeout=2400)
+
+    def classify(r, d):
+        q = d.get("query") or {}
+        c = q.get("config") or {}
+        if d["kind"] in ("job-panic", "process-crash") and c.get("trigger") == "onchange" and c.get("handlers") not in (None, "none"):
+            return "C11-onchange-skips-handler-verification"
+        if d["kind"] == "process-crash" and "stack overflow" in str(d.get("actual", "")) + str(d.get("note", "")):
+            return "C11-endstorecontext-self-recursion"
+        return None
+    v.add_replay(tot, results, classify=classify, label=name)
+    os.remove(out)
+    # (b) storms of concurrent run requests on overlapping job ids, traces validated by TLC
+    storms = 24 if thorough else 6
+    import concurrent.futures as cf
+
+    def storm(k):
+        tr = os.path.join(v.wd, "storm_%d.ndjson" % k)
+        d = os.path.join(v.wd, "storm_st_%d" % k)
+        env = dict(os.environ, VERIF_TRACE=tr, VERIF_DIR=d, VERIF_STORM_MS=str(2500 if thorough else 1500),
+                   VERIF_SEED=str(seed * 100 + k), GOMAXPROCS=["16", "4", "2"][k % 3])
+        try:
+            p = verif.subprocess.run([binary, "-test.run", "^TestJobStorm$", "-test.timeout", "0"], cwd=v.wd, env=env,
+                                     capture_output=True, text=True, timeout=120)
+            rc, txt = p.returncode, p.stdout + p.stderr
+        except verif.subprocess.TimeoutExpired as e:
+            rc, txt = 98, "storm driver did not finish within 120 s"
+        verif.shutil.rmtree(d, ignore_errors=True)
+        return k, rc, txt, tr
+    with cf.ThreadPoolExecutor(max_workers=3) as ex:
+        res = list(ex.map(storm, range(storms)))
+    for k, rc, txt, tr in res:
+        if rc != 0:
+            m = verif.re.search(r"^(fatal error: .*|panic: .*)$", txt, verif.re.M)
+            if rc == 98 or (m and "mimiro-io/datahub/internal/" in txt):
+                path = os.path.join(v.wd, "replay-C11_storm-%d.json" % k)
+                json.dump({"property": "C11", "stage": "C11_storm", "seed": seed * 100 + k,
+                           "what": m.group(1) if m else "hang", "log_tail": txt[-5000:]}, open(path, "w"), indent=1)
+                v.violations.append(("C11_storm: hub process crashed or hung: %s" % (m.group(1) if m else "timeout"), path))
+                continue
+            verif.sys.stderr.write(txt[-2000:])
+            raise Inconclusive("storm driver failed (exit %d)" % rc)
+        sdk = os.path.join(v.wd, "spec_tv_%d" % k)
+        verif.shutil.copytree(sd, sdk)
+        # constants of the trace module
+        ok, nlines, line, tst = validate_raffle(sdk, tr)
+        verif.shutil.rmtree(sdk, ignore_errors=True)
+        v.cov["states"] += tst["distinct"]
+        v.cov["transitions"] += tst["generated"]
+        v.cov["traces_validated_against_impl"] += 1
+        v.cov["evaluations"] += nlines
+        v.cov["distinct_nontrivial"] += 1
+        if not ok:
+            trace_violation(v, "C11_storm_%d" % k, tr, min(max(line, 1), nlines),
+                            "two runs of one job id overlap, a pool is exceeded, or at the end a slot is occupied / a run has no stored result")
+    v.assumptions = ["accepted configurations are run the way the scheduler's triggers run them (the job object AddJob "
+                     "builds, error handlers attached), synchronously, with a healthy and with a failing sink; HTTP sources, "
+                     "transforms and sinks talk to a loopback stub",
+                     "runs are observed from inside the jobs' sources (probe around ReadEntities with a few ms delay): "
+                     "overlapping source reads of one job id imply overlapping runs (sound, not complete)",
+                     "quick tier offers every fourth configuration of the box, thorough all"]
+    return v.finish(rule="spec/Raffle.tla model-checked (NoOverlap, PoolBound, Conservation, ResultPerRun, EveryRunEnds under "
+                    "fairness); spec/JobConfigs.tla enumerates the configuration box, each accepted configuration is run on the "
+                    "real scheduler; seeded storms of manual runs / events / kills / writes in child processes, traces "
+                    "validated by TLC against spec/TraceRaffle.tla. evaluations = checked outcomes + trace lines; "
+                    "distinct_nontrivial = accepted configurations + storms")
+
+
+def validate_raffle(sdk, trace):
+    name = "TV_TraceRaffle"
+    with open(os.path.join(sdk, name + ".tla"), "w") as fh:
+        fh.write('---- MODULE %s ----\nEXTENDS TraceRaffle\nMC_TraceFile == "%s"\n'
+                 'MC_Accepted == IF Accepted THEN TRUE ELSE PrintT(<<"REJECTED_AT", TLCGet(1) + 1>>) /\\ FALSE\n====\n' % (name, trace))
+    with open(os.path.join(sdk, name + ".cfg"), "w") as fh:
+        fh.write("SPECIFICATION Spec\nCONSTANTS TraceFile <- MC_TraceFile PoolI = 2 PoolF = 1\nPOSTCONDITION MC_Accepted\nCHECK_DEADLOCK FALSE\n")
+    out = os.path.join(sdk, name + ".out")
+    cmd = ["java", "-Xmx4g", "-Xss512m", "-XX:+UseParallelGC", "-cp", "/opt/veriftools/tla/tla2tools.jar:" + verif.community_cp(),
+           "tlc2.TLC", "-workers", "1", "-metadir", os.path.join(sdk, "meta"), "-config", name + ".cfg", name + ".tla"]
+    import time as _t
+    t0 = _t.time()
+    with open(out, "w") as fh:
+        verif.subprocess.run(cmd, cwd=sdk, stdout=fh, stderr=verif.subprocess.STDOUT, timeout=600)
+    txt = open(out, errors="replace").read()
+    nlines = sum(1 for _ in open(trace))
+    st = {"generated": 0, "distinct": 0}
+    mm = verif.re.search(r"(\d[\d,]*) states generated, (\d[\d,]*) distinct states found", txt)
+    if mm:
+        st = {"generated": int(mm.group(1).replace(",", "")), "distinct": int(mm.group(2).replace(",", ""))}
+    m = verif.re.search(r'<<"REJECTED_AT", (\d+)>>', txt)
+    if m:
+        log("[trace] TraceRaffle: REJECTED at line %s of %d" % (m.group(1), nlines))
+        return False, nlines, int(m.group(1)), st
+    if "Model checking completed. No error has been found." in txt:
+        log("[trace] TraceRaffle: accepted %d lines (%.1fs)" % (nlines, _t.time() - t0))
+        return True, nlines, 0, st
+    verif.sys.stderr.write(txt[-2000:])
+    raise Inconclusive("TraceRaffle validation failed to run")
